@@ -15,14 +15,19 @@ for e in sorted(glob.glob(os.path.join(d, 'edit_*.diff')), key=lambda x: int(re.
             continue
         env = dict(os.environ, VERIF_REPO=s)
         alarms = []
+        und = set()
         for p in props:
             r = subprocess.run(['/verif/check', p], env=env, capture_output=True, text=True)
             lines = r.stdout.splitlines()
             for i, l in enumerate(lines):
+                if l.startswith('UNDECIDED'):
+                    und.add(l.split('[')[-1][:80])
                 if l.startswith('VIOLATION'):
                     alarms.append('%s: %s' % (p, lines[i - 1][:260] if i else ''))
         uniq = sorted(set(a.split(': ', 1)[1] for a in alarms))
-        print('%s: %d false alarm(s) over %d checks' % (os.path.basename(e), len(uniq), len(props)))
+        print('%s: %d false alarm(s) over %d checks, %d rule instance(s) UNDECIDED' % (os.path.basename(e), len(uniq), len(props), len(und)))
+        for u in sorted(und):
+            print('    (undecided) ' + u)
         for a in uniq:
             who = sorted({x.split(':')[0] for x in alarms if x.split(': ', 1)[1] == a})
             print('    [%s] %s' % (','.join(who), a))
